@@ -259,7 +259,7 @@ PROPS = {
     "C13": {
         "module": "MiniMcmcVerif.Props.C13Ess",
         "obligations": [ST + n for n in ["collectRhatSq_eq_collectWV", "essFromChainStats_path_independent", "essFromChainStats_eq", "feed_inv", "tracker_moments", "tracker_mean", "sum_sq_sub", "tracker_sm2", "collect_rhat_eq_classical",
-                                         "multi_rhat_eq_classical", "collect_rhat_eq_multi", "ema_mem", "p_accept_mem", "p_accept_ema"]],
+                                         "multi_rhat_eq_classical", "collect_rhat_eq_multi", "ema_mem", "p_accept_mem", "p_accept_ema", "ema_mono", "p_accept_mono", "ema_strict"]],
         "rel32": 6e-3, "abs32": 1e-6,
         "level_text": "Theorems (any field of characteristic 0, induction over the update list, every history): the tracker's count, mean and mean of squares are those of exactly the fed states; ess_from_chainstats is M*N/tau of the "
                       "unsplit draws with W and var+ taken from the trackers, whichever autocovariance path runs; "
